@@ -1009,9 +1009,6 @@ func evalDiv(args []ast.Constant) (int64, error) {
 			return 0, ErrDivisionByZero
 		}
 		res = res / divisor
-		if res == 0 {
-			return 0, nil
-		}
 	}
 	return res, nil
 }
